@@ -75,6 +75,26 @@ struct Env {
 	bool failed_in_call = false;
 	std::string error, error_prop;
 	std::vector<std::pair<uintptr_t, size_t>> *live = nullptr;   // extents of live blocks (reported)
+	// software poison shadow (one byte per 8-byte granule: number of accessible leading bytes). Used under
+	// the C04 focus instead of ASan's shadow, so that a poison-state violation is an attributed oracle
+	// failure and never an unattributable sanitizer abort.
+	bool soft = false;
+	std::vector<uint8_t> shadow;
+	void soft_set(uintptr_t a, size_t n, bool accessible) {
+		size_t g0 = (a - (uintptr_t)arena_base()) >> 3, off = a & 7;
+		if(shadow.size() < g0 + (n + off + 7) / 8 + 1) shadow.resize(g0 + (n + off + 7) / 8 + 1, 0);
+		size_t end = off + n;
+		for(size_t g = 0; g * 8 < end; g++) {
+			size_t lo = g * 8, hi = lo + 8;
+			if(accessible) { if(off <= lo) shadow[g0 + g] = (uint8_t)std::max<size_t>(shadow[g0 + g], std::min(hi, end) - lo); }
+			else { if(off <= lo) { if(end >= hi) shadow[g0 + g] = 0; else if(shadow[g0 + g] <= end - lo) shadow[g0 + g] = 0; } else shadow[g0 + g] = (uint8_t)std::min<size_t>(shadow[g0 + g], off - lo); }
+		}
+	}
+	bool soft_accessible(uintptr_t a, size_t n) {
+		size_t g0 = (a - (uintptr_t)arena_base()) >> 3, off = a & 7, end = off + n;
+		for(size_t g = 0; g * 8 < end; g++) { size_t lo = g * 8; size_t need = std::min(end, lo + 8) - lo; if(g0 + g >= shadow.size() || shadow[g0 + g] < need) return false; }
+		return true;
+	}
 	void err(const char *prop, const char *fmt, ...) __attribute__((format(printf, 3, 4))) {
 		if(!error.empty()) return;
 		char buf[400]; va_list ap; va_start(ap, fmt); vsnprintf(buf, sizeof buf, fmt, ap); va_end(ap);
@@ -110,7 +130,8 @@ struct PolCore {
 		ASAN_UNPOISON_MEMORY_REGION((void *)a, len);
 		// the pool must not rely on zeroed memory
 		memset((void *)hdr, 0xCD, std::min<size_t>(len - (hdr - a), 2 * E->page));
-		if(E->poison) ASAN_POISON_MEMORY_REGION((void *)a, len);
+		if(E->poison && !E->soft) ASAN_POISON_MEMORY_REGION((void *)a, len);
+		if(E->soft) E->soft_set(a, len, false);
 		E->regions.push_back(Region{a, len, true, 0, E->inflight_small, E->inflight_class, hdr, E->map_calls});
 		E->mapped_in_call.push_back(E->regions.size() - 1);
 		return a;
@@ -166,9 +187,16 @@ template<> struct InfoOf<P4> { static constexpr Info v{"slab12K-sb64K/aligned/10
 template<> struct InfoOf<P5> { static constexpr Info v{"page64K/unaligned/13", 0x10000, 0x40000, 0x40000, 13, false}; };
 template<> struct InfoOf<P6> { static constexpr Info v{"slab28K-sb32K/aligned/11", 0x1000, 0x7000, 0x8000, 11, true}; };
 template<> struct InfoOf<P7> { static constexpr Info v{"slab12K-sb64K/unaligned/10", 0x1000, 0x3000, 0x10000, 10, false}; };
+template<typename P> struct SoftPoisoning : P {      // same hooks, software shadow only
+	void poison(void *p, size_t n) { this->shadow("poison", p, n); E->soft_set((uintptr_t)p, n, false); }
+	void unpoison(void *p, size_t n) { this->shadow("unpoison", p, n); E->soft_set((uintptr_t)p, n, true); }
+	void unpoison_expand(void *p, size_t n) { this->shadow("unpoison_expand", p, n); E->soft_set((uintptr_t)p, n, true); }
+};
 template<typename P> struct InfoOf<Poisoning<P>> : InfoOf<P> {};
-template<typename P> struct IsPoison { static constexpr bool v = false; };
-template<typename P> struct IsPoison<Poisoning<P>> { static constexpr bool v = true; };
+template<typename P> struct InfoOf<SoftPoisoning<P>> : InfoOf<P> {};
+template<typename P> struct IsPoison { static constexpr bool v = false, soft = false; };
+template<typename P> struct IsPoison<Poisoning<P>> { static constexpr bool v = true, soft = false; };
+template<typename P> struct IsPoison<SoftPoisoning<P>> { static constexpr bool v = true, soft = true; };
 
 size_t class_size(int k) { return k < 4 ? (size_t(8) << k) : (size_t(64) << (k - 3)); }
 int class_of(size_t n, int nb) { if(!n) n = 1; for(int k = 0; k < nb; k++) if(n <= class_size(k)) return k; return -1; }
@@ -185,6 +213,8 @@ struct Runner {
 	using Pool = frg::slab_pool<Pol, inst_mutex>;
 	static constexpr Info info = InfoOf<Pol>::v;
 	static constexpr bool poison = IsPoison<Pol>::v;
+	static constexpr bool soft = IsPoison<Pol>::soft;
+	bool accessible(uintptr_t a, size_t n) { return soft ? env.soft_accessible(a, n) : __asan_region_is_poisoned((void *)a, n) == nullptr; }
 	Ctx &c;
 	Env env;
 	Pol pol;
@@ -297,12 +327,12 @@ struct Runner {
 			if(&o == &b) continue;
 			VCHECK(c, "C01", b.p + b.rep <= o.p || o.p + o.rep <= b.p, "%s: the new block [%#lx, +%zu) overlaps the live block [%#lx, +%zu)", what, (unsigned long)b.p, b.rep, (unsigned long)o.p, o.rep);
 		}
-		if(poison) VCHECK(c, "C03", __asan_region_is_poisoned((void *)b.p, n1) == nullptr, "%s: the %zu requested bytes at %#lx are not all unpoisoned", what, n1, (unsigned long)b.p);
+		if(poison) VCHECK(c, "C03", accessible(b.p, n1), "%s: the %zu requested bytes at %#lx are not all unpoisoned", what, n1, (unsigned long)b.p);
 	}
 	void touch(const Block &b, const char *what) {
 		size_t s = pool->get_size((void *)b.p);
 		VCHECK(c, "C01", s == b.rep, "%s: get_size(%#lx) changed from %zu to %zu while the block lives", what, (unsigned long)b.p, b.rep, s);
-		if(poison) VCHECK(c, "C03", __asan_region_is_poisoned((void *)b.p, std::max<size_t>(b.req, 1)) == nullptr, "%s: requested bytes of the live block at %#lx became poisoned", what, (unsigned long)b.p);
+		if(poison) VCHECK(c, "C03", accessible(b.p, std::max<size_t>(b.req, 1)), "%s: requested bytes of the live block at %#lx became poisoned", what, (unsigned long)b.p);
 	}
 	void note_alloc(const Block &b) {
 		if(b.klass >= 0) {
@@ -328,7 +358,7 @@ struct Runner {
 	static unsigned objects_per_slab(int k) {
 		static unsigned cache[16] = {0};
 		if(cache[k]) return cache[k];
-		Env *saved = E; Env scratch; scratch.page = info.page; scratch.slab = info.slab; scratch.sb = info.sb; scratch.aligned = info.aligned; scratch.poison = poison;
+		Env *saved = E; Env scratch; scratch.page = info.page; scratch.slab = info.slab; scratch.sb = info.sb; scratch.aligned = info.aligned; scratch.poison = poison; scratch.soft = soft;
 		scratch.bump = saved->high + (16u << 20); scratch.high = scratch.bump;
 		E = &scratch;
 		int held = mutex_log().held;
@@ -385,6 +415,7 @@ struct Runner {
 	void take_snapshot() { snapshot = live; snap_used = (long)pool->numUsedPages(); snap_mapped = 0; for(auto &r : env.regions) if(r.mapped) snap_mapped++; }
 	void after_failure(const char *what) {
 		VCHECK(c, "C04", live.size() == snapshot.size(), "model");
+		if(poison) for(auto &b : live) VCHECK(c, "C04", accessible(b.p, std::max<size_t>(b.req, 1)), "%s: map() failed and the requested bytes of the existing block at %#lx (%zu bytes) are no longer accessible (poisoned)", what, (unsigned long)b.p, b.req);
 		for(auto &b : live) { touch(b, what); size_t bad; if(!verify_n(b, b.filled, &bad)) c.fail("C04", "%s: map() failed and byte %zu of the existing block at %#lx changed", what, bad, (unsigned long)b.p); }
 		VCHECK(c, "C04", (long)pool->numUsedPages() == snap_used, "%s: map() failed and numUsedPages() changed from %ld to %zu", what, snap_used, pool->numUsedPages());
 		size_t m = 0; for(auto &r : env.regions) if(r.mapped) m++;
@@ -397,7 +428,7 @@ struct Runner {
 			cur_live[b.klass]--; class_freed[b.klass] = true;
 			if(poison) {
 				for(size_t off = 8; off < b.rep; off += 8)
-					VCHECK(c, "C03", __asan_address_is_poisoned((void *)(b.p + off)), "%s: byte %zu of the freed %zu-byte block at %#lx is not poisoned", what, off, b.rep, (unsigned long)b.p);
+					VCHECK(c, "C03", soft ? !env.soft_accessible(b.p + off, 1) : __asan_address_is_poisoned((void *)(b.p + off)) != 0, "%s: byte %zu of the freed %zu-byte block at %#lx is not poisoned", what, off, b.rep, (unsigned long)b.p);
 			}
 		} else {
 			Region *r = env.find(b.p);
@@ -458,7 +489,7 @@ struct Runner {
 			nb.klass = old.klass;
 			live[idx] = nb;
 			sync_ext();
-			if(poison) VCHECK(c, "C03", __asan_region_is_poisoned(q, n) == nullptr, "%s: requested bytes not unpoisoned after in-place realloc", what);
+			if(poison) VCHECK(c, "C03", accessible((uintptr_t)q, n), "%s: requested bytes not unpoisoned after in-place realloc", what);
 		} else {
 			moving = true;
 			if(old.klass >= 0 && k != old.klass) realloc_left_class = true;
@@ -501,7 +532,7 @@ struct Runner {
 
 	void run() {
 		auto &t = c.t;
-		env.c = &c; env.page = info.page; env.slab = info.slab; env.sb = info.sb; env.aligned = info.aligned; env.poison = poison; env.live = &live_ext;
+		env.c = &c; env.page = info.page; env.slab = info.slab; env.sb = info.sb; env.aligned = info.aligned; env.poison = poison; env.soft = soft; env.live = &live_ext;
 		E = &env;
 		mutex_log().reset();
 		max_class = class_size(info.nb - 1);
@@ -513,7 +544,7 @@ struct Runner {
 		else if(fmode == 2) { env.fail_a = t.pick(30); c.op("faults: map call #%d", env.fail_a); }
 		else if(fmode == 3) { env.fail_a = t.pick(30); env.fail_b = t.pick(30); c.op("faults: map calls #%d and #%d", env.fail_a, env.fail_b); }
 		else { t.next(); }
-		c.op("policy %s%s", info.name, poison ? "+poison" : "");
+		c.op("policy %s%s", info.name, soft ? "+poison(software shadow)" : poison ? "+poison" : "");
 		pool = new (c.raw(sizeof(Pool), alignof(Pool))) Pool(pol);
 		VCHECK(c, "C03", pool->numUsedPages() == 0 && env.callbacks == 0, "a fresh pool reports %zu used pages / made %u policy calls", pool->numUsedPages(), env.callbacks);
 		take_snapshot();
@@ -585,7 +616,7 @@ struct Runner {
 		if(reused_class) c.tag("class-reuse"); if(large_seen) c.tag("large"); if(moving) c.tag("moving-realloc"); if(inplace) c.tag("inplace-realloc");
 		if(churn_refill) c.tag("churn-refill"); if(large_free_with_live) c.tag("large-free-with-live"); if(realloc_left_class) c.tag("realloc-left-class");
 		if(fail_small) c.tag("fault-small"); if(fail_large) c.tag("fault-large"); if(fail_realloc) c.tag("fault-realloc");
-		c.tagf("cfg-%s%s", info.name, poison ? "+poison" : "");
+		c.tagf("cfg-%s%s", info.name, soft ? "+softpoison" : poison ? "+poison" : "");
 		const std::string &f = c.focus();
 		if(f == "C02") c.nontrivial = moving && inplace && churn_refill;
 		else if(f == "C03") c.nontrivial = large_free_with_live && (!poison || realloc_left_class);
@@ -602,7 +633,9 @@ void run_config(Ctx &c, unsigned cfg) {
 	case 0: go<P0>(c); break; case 1: go<P1>(c); break; case 2: go<P2>(c); break; case 3: go<P3>(c); break;
 	case 4: go<P4>(c); break; case 5: go<P5>(c); break; case 6: go<P6>(c); break; case 7: go<P7>(c); break;
 	case 8: go<Poisoning<P0>>(c); break; case 9: go<Poisoning<P1>>(c); break; case 10: go<Poisoning<P2>>(c); break; case 11: go<Poisoning<P3>>(c); break;
-	case 12: go<Poisoning<P4>>(c); break; case 13: go<Poisoning<P5>>(c); break; case 14: go<Poisoning<P6>>(c); break; default: go<Poisoning<P7>>(c); break;
+	case 12: go<Poisoning<P4>>(c); break; case 13: go<Poisoning<P5>>(c); break; case 14: go<Poisoning<P6>>(c); break; case 15: go<Poisoning<P7>>(c); break;
+	case 16: go<SoftPoisoning<P0>>(c); break; case 17: go<SoftPoisoning<P1>>(c); break; case 18: go<SoftPoisoning<P2>>(c); break; case 19: go<SoftPoisoning<P3>>(c); break;
+	case 20: go<SoftPoisoning<P4>>(c); break; case 21: go<SoftPoisoning<P5>>(c); break; case 22: go<SoftPoisoning<P6>>(c); break; default: go<SoftPoisoning<P7>>(c); break;
 	}
 }
 } // namespace
@@ -622,7 +655,10 @@ void verif_case(Ctx &c) {
 	// Poisoning policies belong to the quantifier of C03 only: under another focus a read of a
 	// poisoned byte (an ASan report, which cannot be attributed) would be blamed on the wrong property.
 	bool with_poison = c.focus().empty() || c.focus() == "C03" || c.focus() == "C05";
-	unsigned cfg = c.t.pick(with_poison ? 16 : 8);
+	unsigned cfg = c.t.pick(16);
+	// Under the C04 focus the poisoning configurations use the software shadow: what C04 says about a
+	// poisoning policy (the existing blocks stay usable after a failed map) is checked explicitly.
+	if(!with_poison) { if(c.focus() == "C04" && cfg >= 8) cfg += 8; else cfg &= 7; }
 	run_config(c, cfg);
 }
 
